@@ -466,6 +466,27 @@ def check_special(case):
             qpd3 = msg.qpd.qpd_3.datatype
             if qpd3 != 'QIP':
                 out.append(('C18-iti21-datatype-not-from-profile', 'QPD_3 has datatype %r, the profile says QIP' % qpd3))
+            # ITI-21 gives TS_2 (degree of precision) the datatype ST where the standard says ID: text assigned to that
+            # sub-component, or to the component above it, builds the profile's elements (both levels)
+            for lvl in (STRICT, TOL):
+                for how in ('subcomponent', 'path', 'component'):
+                    mm = Message('RSP_K21', reference=iti, version='2.5', validation_level=lvl)
+                    pid5 = mm.rsp_k21_query_response.pid.pid_5
+                    try:
+                        if how == 'subcomponent':
+                            pid5.xpn_12.ts_2 = 'D'
+                        elif how == 'path':
+                            pid5.pid_5_12_2 = 'D'
+                        else:
+                            pid5.xpn_12 = '20200101&D'
+                        got = pid5.xpn_12.ts_2.datatype
+                        if got != 'ST':
+                            out.append(('C18-iti21-text-assignment-ignores-profile:%s' % how, 'level %d: TS_2 has datatype %r, the profile says ST' % (lvl, got)))
+                        errs = [e for e in report(mm)[0] if e.startswith('Datatype') and 'TS_2' in e]
+                        if errs:
+                            out.append(('C18-iti21-text-assignment-fails-validation:%s' % how, 'level %d: %r' % (lvl, errs[:2])))
+                    except Exception as e:
+                        out.append(('C18-iti21-text-assignment-raises:%s:%s' % (how, type(e).__name__), 'level %d: %s' % (lvl, _exc(e))))
             t = 'MSH|^~\\&|A|B|C|D|20200101||RSP^K22^RSP_K21|1|P|2.5\rMSA|AA|1\rQAK|1|OK\rQPD|IHE PDQ Query|1|@PID.5.1.1^SMITH~@PID.8^M'
             p = P.parse_message(t, message_profile=iti)
             if [f.datatype for f in p.qpd.qpd_3] != ['QIP', 'QIP']:
